@@ -8,6 +8,9 @@
 #include "../c05.hpp"
 #elif VP_C11_PROGRAM == 4
 #include "../c07.hpp"
+#elif VP_C11_PROGRAM == 5
+#define VP_C03_NO_MAIN
+#include "C03.cpp"
 #endif
 
 namespace vp {
@@ -31,10 +34,10 @@ struct CfgChk {
 
 struct Prop {
 	static constexpr char const* id = "C11";
-	static constexpr int H = 13, R = 4, MAXOPS = 10;
+	static constexpr int H = VP_C11_PROGRAM == 5 ? 15 : 13, R = 4, MAXOPS = VP_C11_PROGRAM == 5 ? 5 : 10;
 	static void run(vp::Input const& in, vp::Ctx& ctx) {
 		vp::fancy_errors().clear(); vp::chk().blocks.clear();
-		bool const use_chk = (in.head(12) & 1U) != 0;
+		bool const use_chk = VP_C11_PROGRAM == 5 ? (in.head(11) & 2U) != 0 : (in.head(12) & 1U) != 0;
 		ctx.desc << (use_chk ? "[chk_ptr] " : "[off_ptr] ");
 #if VP_C11_PROGRAM == 1
 		// the same generated program over raw pointers first: the observable results (sizes, relative positions, values) must be identical
@@ -50,6 +53,14 @@ struct Prop {
 		// assignment through views (the C05 program): destination views over fancy-pointer roots; sources over the same pointer family or over raw pointers
 		if(use_chk) { vp::c05::run_c05<vp::CfgChk>(in, ctx); } else { vp::c05::run_c05<vp::CfgOff>(in, ctx); }
 		ctx.label("program_C05");
+#elif VP_C11_PROGRAM == 5
+		// standard algorithms (the C03 program) on begin()/end() and elements() of views over fancy-pointer roots; second ranges over the same family or raw pointers
+		switch(in.head(1) % 3) {
+			case 0: if(use_chk) { c03::run_d<1, vp::CfgChk>(in, ctx); } else { c03::run_d<1, vp::CfgOff>(in, ctx); } break;
+			case 1: if(use_chk) { c03::run_d<2, vp::CfgChk>(in, ctx); } else { c03::run_d<2, vp::CfgOff>(in, ctx); } break;
+			default: if(use_chk) { c03::run_d<3, vp::CfgChk>(in, ctx); } else { c03::run_d<3, vp::CfgOff>(in, ctx); } break;
+		}
+		ctx.label("program_C03");
 #else
 		// equality and ordering (the C07 program): operand A over the fancy family, operand B over the same family or over raw pointers
 		{
